@@ -205,6 +205,20 @@ def check_layout(case):
         require(typed(got) == typed(exp), 'binding-value',
                 lambda: f'{scope}/{full}.{arg}: got {got!r} expected {exp!r}\n--- text:\n{text}')
     gin.clear_config()
+    def lit_values(v):
+      if v[0] == 'lit':
+        yield S.expected_value(v, Ref)
+      elif v[0] in ('list', 'tuple'):
+        for x in v[1]:
+          yield from lit_values(x)
+      elif v[0] == 'dict':
+        for _, x in v[1]:
+          yield from lit_values(x)
+    if any(literals.unorderable_keys(x) for s in stmts if s[0] in ('bind', 'macro')
+           for x in lit_values(s[4] if s[0] == 'bind' else s[3])):
+      # pprint orders such dict keys by memory address: the two texts may legitimately differ
+      labels.add('text-compare-skipped:unorderable-dict-keys')
+      outs[1] = outs[0]
     require(outs[0] == outs[1], 'layouts-disagree',
             lambda: f'--- layout A:\n{ta}\n--- config_str A:\n{outs[0]}\n--- layout B:\n{tb}\n'
                     f'--- config_str B:\n{outs[1]}')
